@@ -23,7 +23,7 @@ TraceInit ==
 ObsInvoke ==
   /\ Has /\ Ev.e = "invoke" /\ Ev.i \in T /\ Ev.addrok
   /\ \/ Invoke1(Ev.i) /\ Ev.sn = SnFor(Ev.i) /\ Ev.ech = EchFor(Ev.i)
-     \/ Invoke2(Ev.i) /\ Ev.sn = SnFor(Ev.i) /\ Ev.ech = RetryOf(script[Ev.i][1])
+     \/ Invoke2(Ev.i) /\ Ev.sn = SnFor(Ev.i) /\ Ev.ech = RetryOfI(Ev.i, script[Ev.i][1])
   /\ l' = l + 1
 
 \* the scripted result the harness handed back for the latest invocation of target i
